@@ -4,7 +4,7 @@
 cd "$(dirname "$0")"
 export CARGO_NET_OFFLINE=true
 mkdir -p build evidence replays
-( cd replay && CARGO_TARGET_DIR=../build/replay-target cargo build --offline -q 2>&1 | tail -3 ) || echo "replay crate did not build (witness search disabled)"
+( cd replay && CARGO_TARGET_DIR=../build/replay-target cargo build --offline -q --bin replay 2>&1 | tail -3; CARGO_TARGET_DIR=../build/replay-target cargo build --offline -q --bin steps 2>&1 | tail -3 ) || echo "replay crate did not build (witness search disabled)"
 verus --version >/dev/null 2>&1 || { echo "verus missing"; exit 1; }
 # differential smoke test of the stand-in contracts against the real bytes / dashmap crates
 ./build/replay-target/debug/replay standins ${VERIF_SEED:-1} 300 > build/standins_selfcheck.txt 2>&1; cat build/standins_selfcheck.txt
